@@ -11,6 +11,7 @@ class Facts:
         self.allocs = {}
         self.items = {}
         self.impls = []
+        self.konsts = {}
         self._body_raw = {}
         self._bodies = {}
         with open(path, 'r') as f:
@@ -27,6 +28,8 @@ class Facts:
                     self.items[name] = json.loads(rest)
                 elif k == 'M':
                     self.impls.append(json.loads(rest))
+                elif k == 'K':
+                    self.konsts[name] = json.loads(rest)
                 elif k == 'H':
                     self.header = json.loads(rest)
         for i, t in self.types.items():
